@@ -317,7 +317,7 @@ def lockstep(ctx, report, rule, facts, config):
                 elif b.key == insert.key and level == 2 and ((tab in ("ids", "stages") and c.name == "push") or (tab in ("reads", "writes") and c.name == "extend")):
                     ok = True
                     found.setdefault(("insert", tab), []).append(bb)
-                if not ok and b.key in helper_cone and not b.raw.get("pub") and b.key not in (add_stage.key, add_group.key, insert.key):
+                if not ok and b.key in helper_cone and not b.api and b.key not in (add_stage.key, add_group.key, insert.key):
                     # a private helper of the three constructors: what it appends is counted where the constructor is evaluated
                     ok = True
                     found.setdefault(("helper", tab), []).append(bb)
@@ -470,7 +470,7 @@ def owned_by(facts, b, owner_keys, _seen=frozenset()):
         b = facts.bodies.get(b.root_key, b)
     if b.key in owner_keys:
         return True
-    if b.key in _seen or b.raw.get("pub"):
+    if b.key in _seen or b.api:
         return False
     cs = facts.callers().get(b.key, [])
     if not cs:
